@@ -94,6 +94,7 @@ func (w *_watcher) run() {
 	var curVersion string
 
 	var retry *time.Timer
+	retrych := make(chan string)
 
 mainloop:
 	for {
@@ -122,8 +123,19 @@ mainloop:
 
 			session.stop()
 			session = nullWatchSession{}
-			outch = nil
-			retry = w.scheduleRetry(w.resetch, curVersion)
+			retry = w.scheduleRetry(retrych, curVersion)
+
+		case <-retrych:
+
+			if session.done() != nil {
+				// stale retry: a reset has started a session since
+				continue
+			}
+
+			w.log.Debugf("retrying version %v", curVersion)
+
+			retry = nil
+			session = newWatchSession(ctx, w.log, w.client, curVersion)
 
 		case evt := <-session.events():
 
